@@ -153,8 +153,9 @@ PROPS = {
         "engines": [{"name": "client", "n": {"quick": 500, "thorough": 30000}, "profiles": ["debug"], "oracle": "oracle_C15", "shard": 15},
                     {"name": "server", "n": {"quick": 100, "thorough": 4000}, "profiles": ["debug"], "oracle": "oracle_C13", "shard": 20},
                     {"name": "handler", "n": {"quick": 800, "thorough": 40000}, "profiles": ["debug"], "oracle": "oracle_C05", "shard": 60},
-                    {"name": "net", "n": {"quick": 2500, "thorough": 60000}, "profiles": ["debug"], "oracle": "oracle_C02", "shard": 200, "distinct_io": True}],
-        "rule": """engine handler: see C05 (a closing connection must report the outcome of a transmission it held, otherwise the peer is not served through its remaining connections). engine net: see C02 (up to three connections per pair, opened and closed at any scheduling step, also while a substream negotiation is pending). engine client: the client half of Behaviour driven op by op (get incl. unconvertible CIDs, cancel of issued and foreign ids, connections opened/closed (via ConnectionClosed and via ClientClosingConnection), incoming client messages with presences and blocks, sending-state reports (protocol-conforming, late, from other connections), release of scripted blockstore get/put calls with hit / miss / failure in any order, virtual-clock advances around 1 s / 5 s / 30 s, ClientBehaviour::poll to Pending, get_new_blocks) over 1-3 peers x <= 3 connections x 2-4 CIDs; after every op the outputs and a full snapshot of the client state are compared with the model. The oracles are folds over the op history and the implementation's outputs/snapshots only. Every history is non-trivial; distinct = distinct op lists. engine server: see C06 (SNewConn on a connected peer must change nothing: compared through the per-op state snapshot).""",
+                    {"name": "net", "n": {"quick": 2500, "thorough": 60000}, "profiles": ["debug"], "oracle": "oracle_C02", "shard": 200, "distinct_io": True},
+                    {"name": "node", "n": {"quick": 500, "thorough": 20000}, "profiles": ["debug"], "oracle": "oracle_C15", "shard": 25}],
+        "rule": """engine node: one complete Behaviour (both halves + lib.rs glue) with up to three connections per peer opened and closed in any order, reports from any of them, against Node.v's steps (connection choice and "was it the last connection" taken from the implementation); oracle: after every op the server half holds a want set for exactly the peers with an open connection and the client half only for such peers. engine handler: see C05 (a closing connection must report the outcome of a transmission it held, otherwise the peer is not served through its remaining connections). engine net: see C02 (up to three connections per pair, opened and closed at any scheduling step, also while a substream negotiation is pending). engine client: the client half of Behaviour driven op by op (get incl. unconvertible CIDs, cancel of issued and foreign ids, connections opened/closed (via ConnectionClosed and via ClientClosingConnection), incoming client messages with presences and blocks, sending-state reports (protocol-conforming, late, from other connections), release of scripted blockstore get/put calls with hit / miss / failure in any order, virtual-clock advances around 1 s / 5 s / 30 s, ClientBehaviour::poll to Pending, get_new_blocks) over 1-3 peers x <= 3 connections x 2-4 CIDs; after every op the outputs and a full snapshot of the client state are compared with the model. The oracles are folds over the op history and the implementation's outputs/snapshots only. Every history is non-trivial; distinct = distinct op lists. engine server: see C06 (SNewConn on a connected peer must change nothing: compared through the per-op state snapshot).""",
         "assumptions": ["A-SWARM: libp2p-swarm reports connections and delivers NotifyHandler::One as documented; both dial directions create the same handler (lib.rs)"],
     },
     "C13": {
